@@ -72,6 +72,13 @@ MUTATIONS = [
     # queries whose RESULT the caller edits: the entry itself must not change
     [("call_edit", "srcaddr.ipnets")], [("call_edit", "dstaddr.ipnets")], [("call_edit", "srcaddr.prefixes")],
     [("call_edit", "dstport.ports")], [("call_edit", "srcport.items")], [("call_edit", "dstaddr.items")],
+    # REFUSED assignments (the documented error is raised and swallowed by the caller): the entry
+    # is still what it renders
+    [("refused", ("dstport.line", "neq bogus"))], [("refused", ("dstport.line", "lt 5 6"))],
+    [("refused", ("dstport.line", "eq"))], [("refused", ("srcport.line", "neq 1 x"))],
+    [("refused", ("srcaddr.line", "10.0.0.0 0.0.0.256"))], [("refused", ("dstaddr.line", "host"))],
+    [("refused", ("dstport.items", [70000]))], [("refused", ("dstport.sport", "5-x"))],
+    [("refused", ("line", "permit tcp any"))], [("refused", ("srcaddr.prefix", "10.0.0.0/33"))],
 ]
 MUT_PARTNERS = ["permit tcp any any", "permit ip any any", "permit tcp 10.0.0.0 0.255.255.255 any",
                 "permit tcp host 10.0.0.1 any eq 80", "permit tcp host 10.0.0.2 any range 20 80",
@@ -100,6 +107,17 @@ def _mutate(bi, mi):
             # a Port born from an empty expression carries no protocol and never renders (a quirk
             # pinned by the repository's tests, see C08): giving it ports later is out of domain
             raise ValueError("empty port expression")
+        if path == "refused":
+            sub, bad = val
+            tgt = ace
+            *hs, attr = sub.split(".")
+            for h in hs:
+                tgt = getattr(tgt, h)
+            try:
+                setattr(tgt, attr, list(bad) if isinstance(bad, list) else bad)
+            except Exception:  # noqa - which error a setter raises for garbage is not C03's subject
+                pass
+            continue
         if path == "call_edit":
             tgt = ace
             *hs, meth = val.split(".")
